@@ -17,15 +17,19 @@ def SpecU (P : Prog) (rank : Nat → Nat) (f : Nat) : Prop :=
       (∀ r, alookup s.derived id = some r → (b = true → r.val ≠ v) ∧ (b = false → r.val = v ∧ r'.tu = r.tu))
 
 theorem Evolves.congr_right {bp : NodeId → Prop} {s s' s'' : Storage} (h : Evolves bp s s') (he : s''.epoch = s'.epoch)
-    (hs : s''.srcs = s'.srcs) (hm : s''.maps = s'.maps) (hd : s''.derived = s'.derived) : Evolves bp s s'' :=
+    (hs : s''.srcs = s'.srcs) (hm : s''.maps = s'.maps) (hd : s''.derived = s'.derived) (hl : s''.log = s'.log) :
+    Evolves bp s s'' :=
   ⟨he.trans h.epoch, hs.trans h.srcs, hm.trans h.maps, fun q r hq => by rw [hd]; exact h.node q r hq,
-   fun q hq hq' => by rw [hd] at hq'; exact h.born q hq hq'⟩
+   fun q hq hq' => by rw [hd] at hq'; exact h.born q hq hq', by rw [hl]; exact h.log⟩
 
 theorem Evolves.congr_left {bp : NodeId → Prop} {s s0 s' : Storage} (h : Evolves bp s s') (he : s0.epoch = s.epoch)
-    (hs : s0.srcs = s.srcs) (hm : s0.maps = s.maps) (hd : s0.derived = s.derived) : Evolves bp s0 s' :=
-  ⟨by rw [he]; exact h.epoch, by rw [hs]; exact h.srcs, by rw [hm]; exact h.maps,
+    (hs : s0.srcs = s.srcs) (hm' : s0.maps = s.maps) (hd : s0.derived = s.derived) (hl : s0.log = s.log) :
+    Evolves bp s0 s' :=
+  ⟨by rw [he]; exact h.epoch, by rw [hs]; exact h.srcs, by rw [hm']; exact h.maps,
    fun q r hq => by rw [hd] at hq; rw [he]; exact h.node q r hq,
-   fun q hq hq' => by rw [hd] at hq; exact h.born q hq hq'⟩
+   fun q hq hq' => by rw [hd] at hq; exact h.born q hq hq', by
+     obtain ⟨new, e, j⟩ := h.log
+     exact ⟨new, by rw [hl]; exact e, fun m hm => ⟨(j m hm).1, (j m hm).2.congr_left he hs hm' hd⟩⟩⟩
 
 theorem specF_of_U {P : Prog} {rank : Nat → Nat} {f : Nat} (hU : SpecU P rank f) : SpecF P rank f := by
   intro s B id v R fr rest hinv hB hf hs hbig
@@ -40,7 +44,7 @@ theorem specF_of_U {P : Prog} {rank : Nat → Nat} {f : Nat} (hU : SpecU P rank 
     rcases List.mem_cons.1 hfr' with rfl | h
     · exact hinv'.stackB fr (by rw [hst']; exact List.mem_cons_self)
     · exact hinv'.stackB fr' (by rw [hst']; exact List.mem_cons_of_mem _ h)
-  · rw [regDep_cons s' fr rest _ _ hst']; exact hev.congr_right rfl rfl rfl rfl
+  · rw [regDep_cons s' fr rest _ _ hst']; exact hev.congr_right rfl rfl rfl rfl rfl
   · rw [regDep_cons s' fr rest _ _ hst', hev.epoch]
   · rw [regDep_cons s' fr rest _ _ hst']; exact hl
 
@@ -63,13 +67,6 @@ theorem Unchanged.toQuiet {P : Prog} {s : Storage} {d : Dep} (h : Unchanged P s 
     rw [hn] at h; simp only at h ⊢
     obtain ⟨rq, hq, htu, hdv, _⟩ := h
     exact ⟨rq, hq, htu, hdv⟩
-
-/-- the dependency was re-stamped since it was recorded -/
-def Changed (s : Storage) (d : Dep) : Prop :=
-  match d.node with
-  | .source k => ∀ nd, alookup s.srcs k = some nd → d.stamp < nd.tu
-  | .absent k => (alookup s.srcs k).isSome = true
-  | .derived q => ∀ rq, alookup s.derived q = some rq → d.stamp < rq.tu
 
 theorem Unchanged.evolves {P : Prog} {bp : NodeId → Prop} {s s' : Storage} {d : Dep} (he : Evolves bp s s') (h : Unchanged P s d) :
     Unchanged P s' d := by
